@@ -770,7 +770,7 @@ def range_boundaries(address, cell=None, sheet=None):
 
             sheets = {n.sheet for n in nodes if n.sheet}
             if not sheet:
-                sheet = next(iter(sheets), None)
+                sheet = next(iter(sheets), '')
             assert not sheets or sheets == {sheet}
 
             return (min_col_idx, min_row, max_col_idx, max_row), sheet
